@@ -165,6 +165,26 @@ def cases(ctx):
             for sh in shs:
                 for sp in sps:
                     out.append(leaf_case(kind, pre, name, sh, sp, L))
+    # keyword mappings written in another key order than the DSL call (keyword arguments are unordered)
+    for cid, spec, dsl, doc, params, pres in [
+        ("items_contain", "{'value.items_contain': {'j': 0, 'k': a}}", "Value.items_contain(k=a, j=0)", "[{'k': u1, 'j': 0}, {'j': 0}, 0]", [("a", "int"), ("u1", "int")], [f"BU({L}, a, u1)"]),
+        ("items_contain.three", "{'VALUE.Items_Contain': {'z': None, 'j': [a], 'k': a}}", "Value.items_contain(k=a, j=[a], z=None)", "[{'k': u1, 'j': [u1], 'z': None}, {}]", [("a", "int"), ("u1", "int")], [f"BU({L}, a, u1)"]),
+        ("items_contain.key", "{'key.items_contain': {'j': 0, 'k': a}}", "Key.items_contain(k=a, j=0)", "{'a': u1, 1: 0}", [("a", "int"), ("u1", "int")], [f"BU({L}, a, u1)"]),
+        ("items_contain.in_tree", "{'or': [{'value.items_contain': {'j': 0, 'k': a}}, {'value.falsy': None}]}", "Value.items_contain(k=a, j=0) | Value.falsy()", "[{'k': u1, 'j': 0}, 0, 1]", [("a", "int"), ("u1", "int")], [f"BU({L}, a, u1)"]),
+        ("in_range", "{'value.in_range': {'upper': hi, 'lower': lo}}", "Value.in_range(lower=lo, upper=hi)", "[u1, 0, 'a']", [("lo", "int"), ("hi", "int"), ("u1", "int")], [f"BU({L}, lo, hi, u1) and hi - lo <= 3"]),
+        ("approx", "{'value.equal_to_approx': {'tolerance': tol, 'value': v}}", "Value.equal_to_approx(value=v, tolerance=tol)", "[u1, 0, 'a']", [("v", "int"), ("tol", "int"), ("u1", "int")], [f"BU({L}, v, tol, u1)"]),
+        ("N_of", "{'value.keys_contain_N_of': {'keys': ['k', 'j'], 'N': n}}", "Value.keys_contain_N_of(N=n, keys=['k', 'j'])", "[{'k': u1}, {'k': 0, 'j': 1}, 0]", [("n", "int"), ("u1", "int")], [f"BU({L}, n, u1)"]),
+    ]:
+        body = f"""
+spec = {spec}
+d = {dsl}
+c = ConditionLike.from_spec(spec)
+doc = {doc}
+ok = note('parsed condition equals the DSL-built one', c == d and d == c and type(c) is type(d))
+ok = ok and same('both filter identically', c.filter(doc).result, d.filter(doc).result)
+return ok
+"""
+        out.append(mk_case(f"c09.kwargs_order.{cid}", params, body, pre=pres, stubs=["sym_repr"]))
     # history: the outcome of a parse must not depend on what was parsed before it in the process
     seqs = [
         [("value.length.eq", "n", "Value.length.equal_to(n)"), ("value.keys_contain", "'k'", "Value.keys_contain('k')"), ("value.dtype.in", "['int']", "Value.dtype.in_([int])"), ("value.items_contain", "{'k': n}", "Value.items_contain(k=n)")],
